@@ -28,6 +28,7 @@ pub trait Suite {
     fn gsk_encode(k: Self::Gsk) -> Vec<u8>;
     fn gsk_decode(b: &[u8]) -> Option<Self::Gsk>;
     fn gsk_sign(k: Self::Gsk, rng: &mut SimRng, msg: &[u8]) -> Self::Sig;
+    fn gsk_sign_seeded(k: Self::Gsk, seed: &[u8], msg: &[u8]) -> Self::Sig;
     fn gpk_encode(k: Self::Gpk) -> Vec<u8>;
     fn gpk_decode(b: &[u8]) -> Option<Self::Gpk>;
     fn gpk_verify(k: Self::Gpk, s: Self::Sig, msg: &[u8]) -> bool;
@@ -130,6 +131,9 @@ macro_rules! impl_suite_common {
         }
         fn gsk_sign(k: Self::Gsk, rng: &mut SimRng, msg: &[u8]) -> Self::Sig {
             k.sign(rng, msg)
+        }
+        fn gsk_sign_seeded(k: Self::Gsk, seed: &[u8], msg: &[u8]) -> Self::Sig {
+            k.sign_seeded(seed, msg)
         }
         fn gpk_encode(k: Self::Gpk) -> Vec<u8> {
             k.encode().to_vec()
